@@ -56,17 +56,13 @@ def failed (cfg : Cfg) (c : Cmd) : Res Reply :=
 def clientCall (cfg : Cfg) (c : Cmd) (w : World) : World × Res Reply :=
   let w1 := { w with calls := w.calls + 1, log := w.log ++ [.one c] }
   if cfg.down w.calls then (w1, failed cfg c)
-  else
-    match w.srv.exec c with
-    | (_, .err) => (w1, failed cfg c)
-    | (srv', r) => ({ w1 with srv := srv' }, .ok r)
+  else if (w.srv.exec c).2 = .err then (w1, failed cfg c)        -- error reply: redis-py raises ResponseError
+  else ({ w1 with srv := (w.srv.exec c).1 }, .ok (w.srv.exec c).2)
 
 /-- does some queued command answer with an error (then `Pipeline.execute(raise_on_error=True)` raises) -/
 def multiErr (s : Srv) : List Cmd → Bool
   | [] => false
-  | c :: cs => match s.exec c with
-    | (_, .err) => true
-    | (s', _) => multiErr s' cs
+  | c :: cs => (s.exec c).2 = .err || multiErr (s.exec c).1 cs
 
 /-- `async with self._pipeline as pipe: …; await pipe.execute()`.  An empty pipeline does no I/O.
 Suppressed: `SafePipeline.execute(raise_on_error=False)` swallows connection errors and ignores error
